@@ -38,7 +38,7 @@ RULE = ('handler programs: bodies of <= 2 ops over 9 atoms {noop, inner raise-an
         'path state x body x remove callable x class; raise_with_cause: active x explicit cause x '
         'target class x handler shape. non-trivial = non-empty body / an exception is involved; distinct '
         'by the whole case')
-REQUIRED_CLAUSES = ['sre-body-raises-chained-exception', 'sre-outcome', 'sre-identity', 'sre-traceback-tail', 'sre-log-count',
+REQUIRED_CLAUSES = ['sre-object-reused-for-a-second-handler', 'sre-body-raises-chained-exception', 'sre-outcome', 'sre-identity', 'sre-traceback-tail', 'sre-log-count',
                     'sre-log-mentions-original', 'sre-k9-regime',
                     'filter-suppressed', 'filter-same-object', 'filter-traceback-tail',
                     'rpoe-path-removed', 'rpoe-same-object', 'rpoe-path-stays',
@@ -971,8 +971,47 @@ def _eval_rwc(ctx, case):
 
 
 # ---------------------------------------------------------------------
+def _eval_sre_reuse(ctx, case):
+    """One save_and_reraise_exception object used for two handlers in a row (a helper kept on an object, a retry loop):
+    each use re-raises the exception that was active when THAT use was entered."""
+    from oslo_utils import excutils
+    first_cls, second_cls, first_end = case['first'], case['second'], case['first_end']
+    st = _State()
+    ctxt = excutils.save_and_reraise_exception(logger=st.log())
+    e1, _s1 = make_exc(first_cls, 'first')
+    e2, _s2 = make_exc(second_cls, 'second')
+    got1 = got2 = None
+    try:
+        try:
+            _raise_site(e1)
+        except BaseException:  # noqa
+            with ctxt:
+                if first_end == 'suppressed':
+                    ctxt.reraise = False
+    except BaseException as e:  # noqa
+        got1 = e
+    ctxt.reraise = True
+    try:
+        try:
+            _raise_site(e2)
+        except BaseException:  # noqa
+            with ctxt:
+                pass
+    except BaseException as e:  # noqa
+        got2 = e
+    ctx.case(('sre-reuse', first_cls, second_cls, first_end))
+    ctx.clause('sre-object-reused-for-a-second-handler')
+    want1 = None if first_end == 'suppressed' else e1
+    if got1 is not want1 or got2 is not e2:
+        ctx.fail('sre-object-reused-for-a-second-handler', case,
+                 {'first_use_raised': got1, 'first_use_should_raise': want1, 'second_use_raised': got2,
+                  'second_use_should_raise': e2, 'second_is_the_first_object': got2 is e1})
+
+
 def evaluate(ctx, case):
     kind = case['kind']
+    if kind == 'sre-reuse':
+        return _eval_sre_reuse(ctx, case)
     if kind == 'sre':
         _eval_sre(ctx, case)
     elif kind == 'filter':
@@ -1056,6 +1095,11 @@ def run(ctx):
                   'cls': rng.choice(SRE_CLASSES)}, 'sre/random-depth%d' % d)
     _flush(ctx)
 
+    # ---- one helper object, two handlers
+    for first, second, first_end in itertools.product(SRE_CLASSES, SRE_CLASSES, ('reraised', 'suppressed')):
+        if 'pre' in (first, second) or 'chained' in (first, second):
+            continue
+        emit({'kind': 'sre-reuse', 'first': first, 'second': second, 'first_end': first_end}, 'sre/reuse')
     # ---- exception_filter: full grid
     for make, use, pred, (cls, msg, code) in itertools.product(
             FILTER_MAKES, FILTER_USES, PREDS, FILTER_EXCS):
